@@ -147,7 +147,7 @@ func randFault(r *RNG, h *hist, kind string, npk, ntx int) (fault, attemptOpts) 
 	switch kind {
 	case "err":
 		f.code = uint16(r.Pick(1236, 1045, 2013, 1, 65535))
-		f.msg = r.Pickstr("Could not find first log file name in binary log index file", "binlog truncated in the middle of event", "#42000bad thing", "x",
+		f.msg = r.Pickstr("Could not find first log file name in binary log index file", "binlog truncated in the middle of event", "#42000bad thing", "x", "disk 100% full", "could not open bin%log.000007", "%!s(MISSING) %d %v %%",
 			"rpc error: code = Canceled desc = context canceled", "context canceled", "EOF", "context deadline exceeded", "invalid connection", "")
 	case "cancel":
 		if r.Bool() {
